@@ -41,7 +41,9 @@ Qed.
 Lemma taskmeta_from_post c t m nt nm :
   mutate_task_meta c t m = Ok (nt, nm) -> post_commit_phase (t_phase t) = true ->
   is_reset c = true
-  \/ (post_commit_phase (t_phase nt) = true /\ is_abort c = false)
+  \/ (post_commit_phase (t_phase nt) = true /\ is_abort c = false
+      /\ ((t_phase nt = t_phase t /\ t_embedded_leader_transfer nt = t_embedded_leader_transfer t)
+          \/ t_phase nt = PhaseClearFence))
   \/ (is_embedded_leg_clear c = true /\ (t_kind t =? KindReplicaReplace) = true
       /\ t_embedded_leader_transfer t = true /\ (t_phase t =? PhaseVerifyNewLeader) = true
       /\ (t_phase nt =? PhaseAddLearner) = true /\ t_embedded_leader_transfer nt = false).
@@ -49,10 +51,11 @@ Proof.
   intros M P. destruct (post_phase_facts _ P) as (F1 & F2 & F3 & F4 & F5).
   destruct c; cbn [mutate_task_meta] in M; try discriminate.
   - (* set fence *)
-    right. left. split; [|reflexivity].
+    right. left.
     unfold mutSetFence in M. repeat if_inv M. b2p. inversion M; subst.
     cbn [t_phase set_status_phase_updated].
-    rewrite (setFence_keeps_post_phase _ _ E P). exact P.
+    rewrite (setFence_keeps_post_phase _ _ E P).
+    split; [exact P|]. split; [reflexivity|]. left. split; reflexivity.
   - left. reflexivity.
   - exfalso. destruct (mutCommit_needs_proof _ _ _ _ _ _ _ _ M) as (_ & Ph & _).
     rewrite Ph in F3. discriminate.
@@ -63,16 +66,17 @@ Proof.
     rewrite Ph in F5. discriminate.
   - (* clear fence *)
     unfold mutClear in M. if_inv M. b2p. if_inv M.
-    + inversion M; subst. right. left. split; [exact P|reflexivity].
+    + inversion M; subst. right. left. split; [exact P|]. split; [reflexivity|]. left. split; reflexivity.
     + repeat if_inv M. inversion M; subst. clear M.
       unfold requireChannelMigrationClearFenceTransition in E.
       destruct (negb (isChannelMigrationFencePhaseAllowed t)); [discriminate|].
       destruct ((tr_status h =? StatusCompleted) && (tr_phase h =? PhaseClearFence) && (0 <? completed)%Z) eqn:C1.
-      * right. left. split; [|reflexivity]. b2p.
+      * right. left. b2p.
         match goal with Hq : (tr_phase h =? PhaseClearFence) = true |- _ => apply N.eqb_eq in Hq end.
         match goal with |- context [if ?cc then _ else _] => destruct cc end;
           cbn [t_phase set_embedded set_completed set_status_phase_updated];
-          match goal with Hq : tr_phase h = PhaseClearFence |- _ => rewrite Hq end; reflexivity.
+          match goal with Hq : tr_phase h = PhaseClearFence |- _ => rewrite Hq end;
+          (split; [reflexivity|split; [reflexivity|right; reflexivity]]).
       * right. right. b2p.
         repeat match goal with Hq : (_ =? _) = true |- _ => rewrite Hq end.
         repeat match goal with Hq : t_embedded_leader_transfer t = true |- _ => rewrite Hq end.
@@ -108,18 +112,20 @@ Proof.
   destruct (mk_adv m); [left; auto|]. destruct (mk_reset m); [left; auto|]. right. auto.
 Qed.
 
-(* executor discipline for one command: a Reset is never applied to, and a Claim/Advance never
-   moves, a task that is in a post-commit phase *)
+(* executor discipline for one command: a Reset is never applied to a task that is in a
+   post-commit phase, and a Claim/Advance applied to such a task keeps its phase and its
+   embedded-transfer flag (the executor's own Claim / blockTask do) *)
 Definition disciplined (d : db) (c : cmd) : Prop :=
   forall k t, cmd_key c = Some k -> task_get (db_tasks d) k = Some t -> post_commit_phase (t_phase t) = true ->
     is_reset c = false
-    /\ (forall next, is_claim_advance c = true -> mutate_task c t = Ok next -> post_commit_phase (t_phase next) = true).
+    /\ (forall next, is_claim_advance c = true -> mutate_task c t = Ok next ->
+        t_phase next = t_phase t /\ t_embedded_leader_transfer next = t_embedded_leader_transfer t).
 
-(* ---- mark_step as a function of six booleans ------------------------------------------------------------ *)
+(* ---- mark_step as a function of seven booleans ---------------------------------------------------------- *)
 
-Definition mark_fn (pre_post cur_post has_adv has_reset aborted leg_done : bool) (m0 : mark) : N * mark :=
+Definition mark_fn (pre_post cur_post has_adv has_reset aborted leg_done adv_moved : bool) (m0 : mark) : N * mark :=
   let m1 := if pre_post then Mark true (mk_adv m0) (mk_reset m0) (mk_other m0) else m0 in
-  let leaving := pre_post && (negb cur_post || aborted) in
+  let leaving := pre_post && (negb cur_post || aborted || adv_moved) in
   let m2 := if leaving then
               if leg_done then mark_zero
               else Mark (mk_post m1) (mk_adv m1 || has_adv) (mk_reset m1 || has_reset)
@@ -130,48 +136,51 @@ Definition mark_fn (pre_post cur_post has_adv has_reset aborted leg_done : bool)
   (code, m3).
 
 (* what the model guarantees about one step of one row *)
-Record step_facts (pre_post cur_post has_adv has_reset aborted leg_done : bool) : Prop := {
-  sf_cause : pre_post = true -> negb cur_post || aborted = true ->
+Record step_facts (pre_post cur_post has_adv has_reset aborted leg_done adv_moved : bool) : Prop := {
+  sf_cause : pre_post = true -> negb cur_post || aborted || adv_moved = true ->
              leg_done = true \/ has_adv = true \/ has_reset = true;
   sf_abort : aborted = true -> pre_post = false;
-  sf_leg : leg_done = true -> cur_post = false /\ aborted = false }.
+  sf_leg : leg_done = true -> cur_post = false /\ aborted = false /\ has_adv = false;
+  sf_moved : adv_moved = true -> has_adv = true }.
 
-Lemma mark_fn_good pre_post cur_post has_adv has_reset aborted leg_done m0 :
-  step_facts pre_post cur_post has_adv has_reset aborted leg_done ->
+Lemma mark_fn_good pre_post cur_post has_adv has_reset aborted leg_done adv_moved m0 :
+  step_facts pre_post cur_post has_adv has_reset aborted leg_done adv_moved ->
   mk_other m0 = false ->
   (mk_post m0 = true -> mk_adv m0 = false -> mk_reset m0 = false -> pre_post = true) ->
-  let r := mark_fn pre_post cur_post has_adv has_reset aborted leg_done m0 in
+  let r := mark_fn pre_post cur_post has_adv has_reset aborted leg_done adv_moved m0 in
   good (fst r) /\ mk_other (snd r) = false
   /\ (mk_post (snd r) = true -> mk_adv (snd r) = false -> mk_reset (snd r) = false -> cur_post = true).
 Proof.
-  intros [Fa Fb Fc] O Pw. destruct m0 as [po ad re ot]. cbn [mk_other mk_post mk_adv mk_reset] in *. subst ot.
+  intros [Fa Fb Fc Fm] O Pw. destruct m0 as [po ad re ot]. cbn [mk_other mk_post mk_adv mk_reset] in *. subst ot.
   unfold mark_fn, good, abort_code.
-  destruct pre_post, cur_post, has_adv, has_reset, aborted, leg_done, po, ad, re;
+  destruct pre_post, cur_post, has_adv, has_reset, aborted, leg_done, adv_moved, po, ad, re;
     cbn [andb orb negb mk_post mk_adv mk_reset mk_other mark_zero fst snd] in *;
     repeat split; auto;
     try (intros; discriminate);
     try (exfalso; destruct (Fa eq_refl eq_refl) as [X|[X|X]]; discriminate);
     try (exfalso; pose proof (Fb eq_refl); discriminate);
-    try (exfalso; destruct (Fc eq_refl); discriminate);
+    try (exfalso; destruct (Fc eq_refl) as (X1 & X2 & X3); discriminate);
+    try (exfalso; pose proof (Fm eq_refl); discriminate);
     try (exfalso; pose proof (Pw eq_refl eq_refl eq_refl); discriminate).
 Qed.
 
-Lemma mark_fn_disciplined pre_post cur_post has_adv has_reset aborted leg_done m0 :
-  step_facts pre_post cur_post has_adv has_reset aborted leg_done ->
-  (pre_post = true -> negb cur_post || aborted = true -> leg_done = true) ->
+Lemma mark_fn_disciplined pre_post cur_post has_adv has_reset aborted leg_done adv_moved m0 :
+  step_facts pre_post cur_post has_adv has_reset aborted leg_done adv_moved ->
+  (pre_post = true -> negb cur_post || aborted || adv_moved = true -> leg_done = true) ->
   (mk_post m0 = true -> mk_adv m0 = false -> mk_reset m0 = false -> pre_post = true) ->
   mark_clean m0 ->
-  let r := mark_fn pre_post cur_post has_adv has_reset aborted leg_done m0 in
+  let r := mark_fn pre_post cur_post has_adv has_reset aborted leg_done adv_moved m0 in
   fst r = 0 /\ mark_clean (snd r).
 Proof.
-  intros [Fa Fb Fc] Fd Pw [C1 C2]. destruct m0 as [po ad re ot]. cbn [mk_other mk_post mk_adv mk_reset] in *. subst ad re.
+  intros [Fa Fb Fc Fm] Fd Pw [C1 C2]. destruct m0 as [po ad re ot]. cbn [mk_other mk_post mk_adv mk_reset] in *. subst ad re.
   unfold mark_fn, mark_clean, abort_code.
-  destruct pre_post, cur_post, has_adv, has_reset, aborted, leg_done, po, ot;
+  destruct pre_post, cur_post, has_adv, has_reset, aborted, leg_done, adv_moved, po, ot;
     cbn [andb orb negb mk_post mk_adv mk_reset mk_other mark_zero fst snd] in *;
     repeat split; auto;
     try (exfalso; pose proof (Fd eq_refl eq_refl); discriminate);
     try (exfalso; pose proof (Fb eq_refl); discriminate);
-    try (exfalso; destruct (Fc eq_refl); discriminate);
+    try (exfalso; destruct (Fc eq_refl) as (X1 & X2 & X3); discriminate);
+    try (exfalso; pose proof (Fm eq_refl); discriminate);
     try (exfalso; pose proof (Pw eq_refl eq_refl eq_refl); discriminate).
 Qed.
 
@@ -190,6 +199,16 @@ Definition b_leg_done (d : db) (okc : list cmd) (k : tkey) (ct : task) : bool :=
      end
   && (t_phase ct =? PhaseAddLearner) && negb (t_embedded_leader_transfer ct).
 
+Definition b_adv_moved (d : db) (okc : list cmd) (k : tkey) (ct : task) : bool :=
+  existsb is_claim_advance (b_mine okc k)
+  && match task_get (db_tasks d) k with
+     | Some t => negb (t_phase t =? t_phase ct)
+                 || negb (Bool.eqb (t_embedded_leader_transfer t) (t_embedded_leader_transfer ct))
+     | None => false
+     end.
+
+Ltac fin := try discriminate; try (intros; discriminate); try (intros; reflexivity); try (intros; auto; fail).
+
 Section MarkStep.
   Variable chs : list chan_key.
   Variable p : snap.
@@ -207,9 +226,9 @@ Section MarkStep.
     task_get (db_tasks d') k = Some ct ->
     mark_step okc p cur k m0 =
     (fst (mark_fn (b_pre_post d k) (post_commit_phase (t_phase ct)) (existsb is_claim_advance (b_mine okc k))
-                  (existsb is_reset (b_mine okc k)) (b_aborted d okc k ct) (b_leg_done d okc k ct) m0),
+                  (existsb is_reset (b_mine okc k)) (b_aborted d okc k ct) (b_leg_done d okc k ct) (b_adv_moved d okc k ct) m0),
      Some (snd (mark_fn (b_pre_post d k) (post_commit_phase (t_phase ct)) (existsb is_claim_advance (b_mine okc k))
-                        (existsb is_reset (b_mine okc k)) (b_aborted d okc k ct) (b_leg_done d okc k ct) m0))).
+                        (existsb is_reset (b_mine okc k)) (b_aborted d okc k ct) (b_leg_done d okc k ct) (b_adv_moved d okc k ct) m0))).
   Proof.
     intro G. unfold mark_step. unfold snap_task at 1. cbn [snap_of obs_of s_tasks o_tasks]. rewrite G.
     rewrite (snap_task_p chs p d Sh). reflexivity.
@@ -227,87 +246,321 @@ Section MarkStep.
   Lemma step_facts_hold k ct :
     task_get (db_tasks d') k = Some ct ->
     step_facts (b_pre_post d k) (post_commit_phase (t_phase ct)) (existsb is_claim_advance (b_mine okc k))
-               (existsb is_reset (b_mine okc k)) (b_aborted d okc k ct) (b_leg_done d okc k ct)
+               (existsb is_reset (b_mine okc k)) (b_aborted d okc k ct) (b_leg_done d okc k ct) (b_adv_moved d okc k ct)
     /\ (disciplined d c -> b_pre_post d k = true ->
-        negb (post_commit_phase (t_phase ct)) || b_aborted d okc k ct = true -> b_leg_done d okc k ct = true).
+        negb (post_commit_phase (t_phase ct)) || b_aborted d okc k ct || b_adv_moved d okc k ct = true -> b_leg_done d okc k ct = true).
   Proof.
     intro Gc.
     (* when the row did not change *)
-    assert (Same : task_get (db_tasks d) k = Some ct ->
+    assert (SameRow : task_get (db_tasks d) k = Some ct ->
       step_facts (b_pre_post d k) (post_commit_phase (t_phase ct)) (existsb is_claim_advance (b_mine okc k))
-                 (existsb is_reset (b_mine okc k)) (b_aborted d okc k ct) (b_leg_done d okc k ct)
+                 (existsb is_reset (b_mine okc k)) (b_aborted d okc k ct) (b_leg_done d okc k ct) (b_adv_moved d okc k ct)
       /\ (disciplined d c -> b_pre_post d k = true ->
-          negb (post_commit_phase (t_phase ct)) || b_aborted d okc k ct = true -> b_leg_done d okc k ct = true)).
-    { intro G0. unfold b_pre_post, b_aborted, b_leg_done. rewrite G0.
+          negb (post_commit_phase (t_phase ct)) || b_aborted d okc k ct || b_adv_moved d okc k ct = true -> b_leg_done d okc k ct = true)).
+    { intro G0. unfold b_pre_post, b_aborted, b_leg_done, b_adv_moved. rewrite G0.
       assert (Ab : forall z, z && (t_status ct =? StatusAborted) && negb (t_status ct =? StatusAborted) = false)
         by (intro z; destruct (t_status ct =? StatusAborted); [rewrite andb_false_r|rewrite andb_false_r, andb_false_l]; reflexivity).
-      rewrite Ab.
+      rewrite Ab, N.eqb_refl, Bool.eqb_reflx. cbn [negb orb]. rewrite andb_false_r.
       split; [split|].
       - intros P1 P2. rewrite P1 in P2. discriminate.
       - discriminate.
-      - intro L. b2p.
+      - intro L. exfalso. b2p.
         match goal with Hq : (t_phase ct =? PhaseVerifyNewLeader) = true |- _ => apply N.eqb_eq in Hq; rewrite Hq in * end.
         discriminate.
+      - discriminate.
       - intros _ P1 P2. rewrite P1 in P2. discriminate. }
     destruct (accepted x) eqn:A.
-    2:{ assert (D : d' = d) by (apply not_accepted_same; exact A). rewrite D in Gc. apply Same. exact Gc. }
-    pose proof (accepted_eq d c A) as E. fold d' in E.
-    assert (OK : okc = [c]) by (unfold okc; try rewrite A; reflexivity).
-    assert (Mine : b_mine k = if cmd_targets c k then [c] else []) by (unfold b_mine; rewrite OK; reflexivity).
+    2:{ assert (D : d' = d) by (apply not_accepted_same; exact A). rewrite D in Gc. apply SameRow. exact Gc. }
+    pose proof (accepted_eq d c A) as E.
+    assert (Mine : b_mine [c] k = if cmd_targets c k then [c] else []) by reflexivity.
     destruct (step_row_change d c d' k I E)
       as [S|t0 Hc Hk Hn Hg|g t0 next Hg Hca Hk Hp Hm Hu Hn|h t0 m nt nm Hh Hk Hp Hm Hg Hr Hu Ht0 Hn|b l t0 Hc Hp Ht0 Hn].
-    - apply Same. rewrite <- S. exact Gc.
+    - apply SameRow. rewrite <- S. exact Gc.
     - (* created *)
-      unfold b_pre_post, b_aborted, b_leg_done. rewrite Hn, Mine.
+      unfold b_pre_post, b_aborted, b_leg_done, b_adv_moved. rewrite Hn, Mine.
       assert (Na : existsb is_abort (if cmd_targets c k then [c] else []) = false).
       { destruct (cmd_targets c k); [|reflexivity]. destruct Hc as [Hc|[g Hc]]; subst c; reflexivity. }
-      rewrite Na. cbn [andb]. rewrite andb_false_r. cbn [andb].
-      split; [split|]; try discriminate. intros _ Q. discriminate.
+      rewrite Na. cbn [andb]. rewrite !andb_false_r. cbn [andb].
+      split; [split|]; fin.
     - (* claim / advance *)
       rewrite Gc in Hn. inversion Hn; subst next. clear Hn.
       assert (Tg : cmd_targets c k = true) by (apply cmd_targets_key; rewrite (claim_key _ _ Hca Hg), Hk; reflexivity).
-      unfold b_pre_post, b_aborted, b_leg_done. rewrite Hp, Mine, Tg. cbn [existsb orb]. rewrite Hca.
+      unfold b_pre_post, b_aborted, b_leg_done, b_adv_moved. rewrite Hp, Mine, Tg. cbn [existsb orb]. rewrite Hca.
       assert (Na : is_abort c = false) by (destruct c; try discriminate Hca; reflexivity).
       assert (Nl : is_embedded_leg_clear c = false) by (destruct c; try discriminate Hca; reflexivity).
       rewrite Na, Nl. cbn [andb orb].
-      split; [split|]; try discriminate.
+      split; [split|].
       + intros _ _. right. left. reflexivity.
-      + intros Dz P0 Q. rewrite orb_false_r in Q. apply negb_true_iff in Q.
+      + fin.
+      + fin.
+      + fin.
+      + intros Dz P0 Q. exfalso.
         destruct (Dz k t0) as [_ Dn]; [rewrite (claim_key _ _ Hca Hg), Hk; reflexivity|exact Hp|exact P0|].
-        rewrite (Dn ct Hca Hu) in Q. discriminate.
+        destruct (Dn ct Hca Hu) as [D1 D2].
+        rewrite D1, D2, N.eqb_refl, Bool.eqb_reflx, P0 in Q. discriminate.
     - (* task + meta *)
       rewrite Gc in Hn. inversion Hn; subst nt. clear Hn.
       assert (Tg : cmd_targets c k = true) by (apply cmd_targets_key; rewrite (trans_key _ _ Hh), Hk; reflexivity).
-      unfold b_pre_post, b_aborted, b_leg_done. rewrite Hp, Mine, Tg. cbn [existsb orb].
-      rewrite (trans_not_claim _ _ Hh).
+      unfold b_pre_post, b_aborted, b_leg_done, b_adv_moved. rewrite Hp, Mine, Tg. cbn [existsb orb].
+      rewrite (trans_not_claim _ _ Hh). rewrite !orb_false_r. cbn [andb].
       destruct (post_commit_phase (t_phase t0)) eqn:P0.
-      + destruct (taskmeta_from_post _ _ _ _ _ Hu P0) as [Rs|[[Pc Na]|(Lc & L1 & L2 & L3 & L4 & L5)]].
+      + destruct (taskmeta_from_post _ _ _ _ _ Hu P0) as [Rs|[(Pc & Na & _)|(Lc & L1 & L2 & L3 & L4 & L5)]].
         * assert (Na : is_abort c = false) by (destruct c; try discriminate Rs; reflexivity).
           assert (Nl : is_embedded_leg_clear c = false) by (destruct c; try discriminate Rs; reflexivity).
           rewrite Rs, Na, Nl. cbn [andb orb].
-          split; [split|]; try discriminate.
+          split; [split|].
           -- intros _ _. right. right. reflexivity.
+          -- fin.
+          -- fin.
+          -- fin.
           -- intros Dz _ _. destruct (Dz k t0) as [Dr _]; [rewrite (trans_key _ _ Hh), Hk; reflexivity|exact Hp|exact P0|].
              rewrite Rs in Dr. discriminate.
         * rewrite Pc, Na, (post_not_addlearner _ Pc). cbn [andb orb negb]. rewrite !andb_false_r. cbn [andb].
-          split; [split|]; try discriminate. intros _ _ Q. discriminate.
+          split; [split|]; fin.
         * assert (Na : is_abort c = false) by (destruct c; try discriminate Lc; reflexivity).
           assert (Pc : post_commit_phase (t_phase ct) = false) by (apply N.eqb_eq in L4; rewrite L4; reflexivity).
           rewrite Na, Lc, L1, L2, L3, L4, L5, Pc. cbn [andb orb negb].
-          split; [split|]; try discriminate; auto.
-      + assert (Lg : forall z w, z && ((t_kind t0 =? KindReplicaReplace) && t_embedded_leader_transfer t0
-                                    && (t_phase t0 =? PhaseVerifyNewLeader)) && w = false).
-        { intros z w. destruct (t_phase t0 =? PhaseVerifyNewLeader) eqn:Q.
-          - apply N.eqb_eq in Q. rewrite Q in P0. discriminate.
-          - rewrite !andb_false_r. reflexivity. }
-        rewrite <- !andb_assoc. rewrite andb_assoc with (b1 := is_embedded_leg_clear c || false).
-        rewrite (andb_assoc (is_embedded_leg_clear c || false)).
-        split; [split|]; try discriminate.
-        * intro L. exfalso.
-          destruct (t_phase t0 =? PhaseVerifyNewLeader) eqn:Q.
-          -- apply N.eqb_eq in Q. rewrite Q in P0. discriminate.
-          -- rewrite !andb_false_r in L. cbn [andb] in L. rewrite ?andb_false_r in L. discriminate.
-        * reflexivity.
+          split; [split|].
+          -- intros _ _. left. reflexivity.
+          -- fin.
+          -- intros _. repeat split; reflexivity.
+          -- fin.
+          -- intros _ _ _. reflexivity.
+      + assert (Q7 : (t_phase t0 =? PhaseVerifyNewLeader) = false).
+        { destruct (t_phase t0 =? PhaseVerifyNewLeader) eqn:Q; [|reflexivity].
+          apply N.eqb_eq in Q. rewrite Q in P0. discriminate. }
+        rewrite Q7. rewrite !andb_false_r. cbn [andb].
+        split; [split|]; fin.
     - rewrite Gc in Hn. discriminate.
   Qed.
 End MarkStep.
+
+(* ---- one key, one step ------------------------------------------------------------------------------------ *)
+
+Lemma mark_step_key chs p d c k m0 :
+  shows chs p d -> db_inv d -> mark_ok d k m0 ->
+  let d' := fst (apply_one d c) in
+  let okc := if accepted (snd (apply_one d c)) then [c] else [] in
+  let cur := snap_of (obs_of chs d' (bres_of (snd (apply_one d c)))) in
+  let r := mark_step okc p cur k m0 in
+  good (fst r)
+  /\ (forall m, snd r = Some m -> mark_ok d' k m)
+  /\ (disciplined d c -> mark_clean m0 -> fst r = 0 /\ forall m, snd r = Some m -> mark_clean m).
+Proof.
+  intros Sh I [O Pw]. cbn zeta.
+  destruct (task_get (db_tasks (fst (apply_one d c))) k) as [ct|] eqn:Gc.
+  - rewrite (mark_step_as_fn chs p d c Sh k m0 ct Gc). cbn [fst snd].
+    destruct (step_facts_hold d c I k ct Gc) as [F Fd].
+    assert (Pw' : mk_post m0 = true -> mk_adv m0 = false -> mk_reset m0 = false -> b_pre_post d k = true).
+    { intros P1 P2 P3. destruct (Pw P1 P2 P3) as (t & G & Q). unfold b_pre_post. rewrite G. exact Q. }
+    destruct (mark_fn_good _ _ _ _ _ _ _ m0 F O Pw') as (G1 & G2 & G3).
+    split; [exact G1|]. split.
+    + intros m Em. inversion Em; subst m. split; [exact G2|].
+      intros P1 P2 P3. exists ct. split; [exact Gc|apply G3; assumption].
+    + intros Dz Cl. destruct (mark_fn_disciplined _ _ _ _ _ _ _ m0 F (Fd Dz) Pw' Cl) as [Z Cz].
+      split; [exact Z|]. intros m Em. inversion Em; subst m. exact Cz.
+  - rewrite (mark_step_gone chs p d c k m0 Gc). cbn [fst snd].
+    split; [left; reflexivity|]. split; [discriminate|]. intros _ _. split; [reflexivity|discriminate].
+Qed.
+
+(* ---- the fold over the rows ---------------------------------------------------------------------------------- *)
+
+Lemma assoc_get_snoc (l : marks) k m k' :
+  assoc_get tkey_eqb (l ++ [(k, m)]) k' =
+  match assoc_get tkey_eqb l k' with Some v => Some v | None => if tkey_eqb k k' then Some m else None end.
+Proof.
+  induction l as [|[k0 v0] l IH]; cbn [app assoc_get]; [reflexivity|].
+  destruct (tkey_eqb k0 k'); [reflexivity|exact IH].
+Qed.
+
+Lemma good_combine a b : good a -> good b -> good (combine a b).
+Proof.
+  unfold good, combine. intros [A|[A|A]] [B|[B|B]]; subst; cbn [N.eqb orb Pos.eqb]; auto.
+Qed.
+
+Lemma zero_combine a b : a = 0 -> b = 0 -> combine a b = 0.
+Proof. intros; subst; reflexivity. Qed.
+
+Definition mark_of (ms : marks) (k : tkey) : mark :=
+  match assoc_get tkey_eqb ms k with Some m => m | None => mark_zero end.
+
+Lemma marks_step_fold (G : N -> Prop) (Pk : tkey -> mark -> Prop) okc p c ms :
+  (forall a b, G a -> G b -> G (combine a b)) ->
+  (forall t, In t (s_tasks c) ->
+     G (fst (mark_step okc p c (task_key t) (mark_of ms (task_key t))))
+     /\ forall m, snd (mark_step okc p c (task_key t) (mark_of ms (task_key t))) = Some m -> Pk (task_key t) m) ->
+  G 0 ->
+  G (fst (marks_step okc p c ms))
+  /\ forall k m, assoc_get tkey_eqb (snd (marks_step okc p c ms)) k = Some m -> Pk k m.
+Proof.
+  intros Gc Hs G0. unfold marks_step.
+  assert (Gen : forall l acc, incl l (s_tasks c) -> G (fst acc) ->
+            (forall k m, assoc_get tkey_eqb (snd acc) k = Some m -> Pk k m) ->
+            G (fst (fold_left (fun acc t =>
+               let k := task_key t in
+               let m0 := match assoc_get tkey_eqb ms k with Some m => m | None => mark_zero end in
+               match mark_step okc p c k m0 with
+               | (code, Some m) => (combine (fst acc) code, snd acc ++ [(k, m)])
+               | (code, None) => (combine (fst acc) code, snd acc)
+               end) l acc))
+            /\ forall k m, assoc_get tkey_eqb (snd (fold_left (fun acc t =>
+               let k := task_key t in
+               let m0 := match assoc_get tkey_eqb ms k with Some m => m | None => mark_zero end in
+               match mark_step okc p c k m0 with
+               | (code, Some m) => (combine (fst acc) code, snd acc ++ [(k, m)])
+               | (code, None) => (combine (fst acc) code, snd acc)
+               end) l acc)) k = Some m -> Pk k m).
+  { induction l as [|t l IH]; intros acc Inc Ga Pa; cbn [fold_left]; [split; assumption|].
+    assert (It : In t (s_tasks c)) by (apply Inc; left; reflexivity).
+    destruct (Hs t It) as [H1 H2]. unfold mark_of in H1, H2.
+    cbn zeta.
+    destruct (mark_step okc p c (task_key t)
+                match assoc_get tkey_eqb ms (task_key t) with Some m => m | None => mark_zero end) as [code om].
+    cbn [fst snd] in H1, H2.
+    apply IH; [intros u Hu; apply Inc; right; exact Hu| |].
+    - destruct om; cbn [fst]; apply Gc; assumption.
+    - destruct om as [m1|]; cbn [snd]; [|exact Pa].
+      intros k m Hk. rewrite assoc_get_snoc in Hk.
+      destruct (assoc_get tkey_eqb (snd acc) k) as [v|] eqn:Ea.
+      + inversion Hk; subst. apply Pa. exact Ea.
+      + destruct (tkey_eqb (task_key t) k) eqn:Ek; [|discriminate].
+        apply tkey_eqb_eq in Ek. subst k. inversion Hk; subst. apply H2. reflexivity. }
+  apply Gen; [apply incl_refl|exact G0|intros k m H; discriminate].
+Qed.
+
+(* ---- one monitor step on the model's trace ----------------------------------------------------------------------- *)
+
+Definition marks_inv (d : db) (ms : marks) : Prop := forall k, mark_ok d k (mark_of ms k).
+Definition marks_clean (ms : marks) : Prop := forall k, mark_clean (mark_of ms k).
+
+Record sim (chs : list chan_key) (d : db) (st : mstate) : Prop := {
+  sim_shows : shows chs (ms_prev st) d;
+  sim_inv : db_inv d;
+  sim_norm : metas_normalized d;
+  sim_taint : ms_taint st = [];
+  sim_marks : marks_inv d (ms_marks st) }.
+
+Lemma sim_init chs : sim chs db_empty mstate_init.
+Proof.
+  split; [apply shows_empty|apply db_inv_empty|apply metas_normalized_empty|reflexivity|].
+  intro k. apply mark_zero_ok.
+Qed.
+
+Lemma marks_inv_of d ms : (forall k m, assoc_get tkey_eqb ms k = Some m -> mark_ok d k m) -> marks_inv d ms.
+Proof. intros H k. unfold mark_of. destruct (assoc_get tkey_eqb ms k) eqn:E; [apply (H k); exact E|apply mark_zero_ok]. Qed.
+
+Lemma marks_clean_of ms : (forall k m, assoc_get tkey_eqb ms k = Some m -> mark_clean m) -> marks_clean ms.
+Proof. intros H k. unfold mark_of. destruct (assoc_get tkey_eqb ms k) eqn:E; [apply (H k); exact E|apply mark_zero_clean]. Qed.
+
+Lemma fold_combine_six t : fold_left combine [0; 0; 0; 0; 0; 0; t] 0 = t.
+Proof. cbn [fold_left]. change (combine 0 0) with 0. apply combine_zero_l. Qed.
+
+Local Notation XX d c := (snd (apply_one d c)).
+Local Notation DD d c := (fst (apply_one d c)).
+Local Notation OKC d c := (if accepted (snd (apply_one d c)) then [c] else []).
+Local Notation CUR chs d c := (snap_of (obs_of chs (fst (apply_one d c)) (bres_of (snd (apply_one d c))))).
+
+Theorem mon_step_on_model chs d st c :
+  sim chs d st -> covers chs c ->
+  let o := obs_of chs (DD d c) (bres_of (XX d c)) in
+  good (fst (mon_step st [c] o))
+  /\ sim chs (DD d c) (snd (mon_step st [c] o))
+  /\ (disciplined d c -> marks_clean (ms_marks st) ->
+      fst (mon_step st [c] o) = 0 /\ marks_clean (ms_marks (snd (mon_step st [c] o)))).
+Proof.
+  intros [Sh I Nm Tn Mk] Cov. cbn zeta.
+  unfold mon_step, mon_step_codes. cbn [o_res obs_of].
+  rewrite ok_cmds_single.
+  rewrite Tn.
+  rewrite (single_active_step_zero chs [c] (OKC d c) (ms_prev st) (DD d c) (bres_of (XX d c)) (I' chs d c I)).
+  destruct (marks_step (OKC d c) (ms_prev st) (CUR chs d c) (ms_marks st)) as [ct ms'] eqn:Ms.
+  cbn [fst snd].
+  (* the six state / per-command clauses are 0 *)
+  assert (C1 : b2c (negb (all_stale (bres_of (XX d c))
+                          || true && match bres_of (XX d c) with BErr _ => true | BResults _ => false end)
+                    || snap_unchanged (ms_prev st) (CUR chs d c)) = 0).
+  { cbn [andb]. pose proof (rejected_holds chs (ms_prev st) d c Sh) as R. cbn zeta in R. rewrite R. reflexivity. }
+  assert (C2 : b2c (negb true || forallb (commit_clause (ms_prev st)) (OKC d c)) = 0).
+  { cbn [negb orb]. destruct (accepted (XX d c)) eqn:A; cbn [forallb]; [|reflexivity].
+    rewrite (commit_clause_holds chs (ms_prev st) d c Sh Cov A). reflexivity. }
+  assert (C3 : b2c (negb true || forallb (abort_clause (ms_prev st)) (OKC d c)) = 0).
+  { cbn [negb orb]. destruct (accepted (XX d c)) eqn:A; cbn [forallb]; [|reflexivity].
+    rewrite (abort_clause_holds chs (ms_prev st) d c Sh Cov A). reflexivity. }
+  assert (C4 : b2c (tasks_frame (OKC d c) (ms_prev st) (CUR chs d c)
+                    && metas_frame (OKC d c) (ms_prev st) (CUR chs d c)) = 0).
+  { rewrite (tasks_frame_holds chs (ms_prev st) d c Sh I Cov), (metas_frame_holds chs (ms_prev st) d c Sh I Nm Cov). reflexivity. }
+  assert (C5 : b2c (metas_valid (OKC d c) (ms_prev st) (CUR chs d c)) = 0).
+  { rewrite (metas_valid_holds chs (ms_prev st) d c Sh I Nm Cov). reflexivity. }
+  rewrite C1, C2, C3, C4, C5, fold_combine_six.
+  (* the temporal clause *)
+  pose proof (marks_step_fold good (mark_ok (DD d c)) (OKC d c) (ms_prev st) (CUR chs d c) (ms_marks st) good_combine) as Fg.
+  rewrite Ms in Fg. cbn [fst snd] in Fg.
+  destruct Fg as [Gt Mt].
+  { intros t _. destruct (mark_step_key chs (ms_prev st) d c (task_key t) (mark_of (ms_marks st) (task_key t)) Sh I (Mk _))
+      as (A1 & A2 & _). split; assumption. }
+  { left. reflexivity. }
+  split; [exact Gt|]. split.
+  - split; cbn [ms_prev ms_marks ms_taint].
+    + apply shows_obs.
+    + apply (I' chs d c I).
+    + destruct (apply_one d c) as [d1 x1] eqn:E. eapply apply_one_normalized; eauto.
+    + reflexivity.
+    + apply marks_inv_of. exact Mt.
+  - intros Dz Cl.
+    pose proof (marks_step_fold (fun n => n = 0) (fun _ m => mark_clean m) (OKC d c) (ms_prev st)
+                  (CUR chs d c) (ms_marks st) zero_combine) as Fz.
+    rewrite Ms in Fz. cbn [fst snd] in Fz.
+    destruct Fz as [Zt Ct].
+    { intros t _. destruct (mark_step_key chs (ms_prev st) d c (task_key t) (mark_of (ms_marks st) (task_key t)) Sh I (Mk _))
+        as (_ & _ & A3). destruct (A3 Dz (Cl _)) as [Z1 Z2]. split; assumption. }
+    { reflexivity. }
+    split; [exact Zt|]. cbn [ms_marks]. apply marks_clean_of. exact Ct.
+Qed.
+
+(* ---- whole histories ------------------------------------------------------------------------------------------------- *)
+
+Fixpoint history_disciplined (d : db) (cs : list cmd) : Prop :=
+  match cs with
+  | [] => True
+  | c :: r => disciplined d c /\ history_disciplined (fst (apply_one d c)) r
+  end.
+
+Lemma mon_run_on_model chs cs : forall d st acc,
+  sim chs d st -> Forall (covers chs) cs -> good acc ->
+  good (mon_run st (model_trace chs d cs) acc)
+  /\ (history_disciplined d cs -> marks_clean (ms_marks st) -> acc = 0 ->
+      mon_run st (model_trace chs d cs) acc = 0).
+Proof.
+  induction cs as [|c r IH]; intros d st acc S Cv Ga; cbn [model_trace mon_run].
+  - split; [exact Ga|]. intros _ _ Z. exact Z.
+  - inversion Cv as [|? ? Cc Cr]; subst.
+    destruct (mon_step_on_model chs d st c S Cc) as (G1 & S1 & D1).
+    destruct (mon_step st [c] (obs_of chs (fst (apply_one d c)) (bres_of (snd (apply_one d c))))) as [code st'].
+    cbn [fst snd] in G1, S1, D1.
+    destruct (IH (fst (apply_one d c)) st' (combine acc code) S1 Cr (good_combine _ _ Ga G1)) as [H1 H2].
+    split; [exact H1|].
+    intros [Dc Dr] Cl Z. destruct (D1 Dc Cl) as [Z1 C1]. apply H2; [exact Dr|exact C1|].
+    subst. reflexivity.
+Qed.
+
+(* THEOREM c17_model_satisfies_monitor: on the model's own observations of any history of one-command
+   batches (from the empty database, over any channel alphabet that names the meta rows the commands
+   read) the monitor returns 0, 2 (K1) or 3 (K2): never a violation, never K3 *)
+Theorem model_satisfies_monitor chs cs :
+  Forall (covers chs) cs ->
+  good (C17_monitor_on (model_trace chs db_empty cs)).
+Proof.
+  intro Cv. unfold C17_monitor_on.
+  apply (mon_run_on_model chs cs db_empty mstate_init 0 (sim_init chs) Cv). left. reflexivity.
+Qed.
+
+(* ... and 0 when the history is disciplined *)
+Theorem model_satisfies_monitor_disciplined chs cs :
+  Forall (covers chs) cs -> history_disciplined db_empty cs ->
+  C17_monitor_on (model_trace chs db_empty cs) = 0.
+Proof.
+  intros Cv Dz. unfold C17_monitor_on.
+  apply (mon_run_on_model chs cs db_empty mstate_init 0 (sim_init chs) Cv); auto.
+  - left. reflexivity.
+  - intro k. apply mark_zero_clean.
+Qed.
